@@ -279,6 +279,31 @@ for _id in ("C04", "C07", "C15"):
         CLAIMED[_id]["text"] += (" An enumerated family (140 scenarios every run) drives the timer-descriptor state machine: k = 2..8 consecutive wake-ups with an unchanged "
                                  "deadline (below/at/above the arming threshold), then a handler adds an earlier/later timer or (un/re)registers the pending one; 4 methods.")
 
+if "C07" in CLAIMED and _has("C07tmo"):
+    CLAIMED["C07"]["text"] += (" Extension (Ivy/Props/C07tmo.lean, 9 theorems): the timeout clause of 'every wake-up makes progress'. The oracle Mon.C07.tmoCapVerdict (a sleep "
+                               "that ran out is followed by a callback before the next wait; at most two consecutive empty zero-timeout polls) is proved to accept every trace "
+                               "of the machine that keeps an explicit timeout contract (tmo_cap_sound); the contract is evaluated on every replayed log (ENVBAD if the harness "
+                               "breaks it); the proof found and the oracle excludes the 24 h cap of to_msec (day_cap_rejected), and shows the tolerance of two to be exact.")
+if "C08" in CLAIMED and _has("C08loop"):
+    CLAIMED["C08"]["text"] += (" Extension (Ivy/Props/C08loop.lean): the owner's side of iv_event inside ONE loop is also stated on the L1 loop machine (Mon.C08: no blocking wait "
+                               "with a posted event undelivered and no wake-up outstanding) and proved for every trace; run on every loop log, incl. the enumerated families "
+                               "(kick in the same batch as the expired timer descriptor, iv_quit from an event handler inside a batch).")
+for _id in ("C01", "C02", "C03", "C06", "C07", "C15"):
+    if _id in CLAIMED:
+        CLAIMED[_id]["text"] += (" Further enumerated families (every run): iv_quit from a handler while other descriptors / tasks / events of the same iteration are "
+                                 "undelivered and iv_main re-entered; descriptors whose only handler is the error handler; failed iv_fd_register_try followed by release of "
+                                 "the object and table compaction; interrupted registration probes.")
+for _id in ("C08", "C09", "C10", "C11", "C12", "C13", "C18", "C19"):
+    if _id in CLAIMED:
+        CLAIMED[_id]["text"] += (" Every block the library mallocs comes back filled with a per-scenario byte pattern and application objects are garbage-filled before "
+                                 "IV_*_INIT, so a field the library forgets to initialise is read as garbage deterministically.")
+if "C20" in CLAIMED:
+    CLAIMED["C20"]["text"] += (" Instances of different threads: the ThreadSanitizer program tsan_inotify (one instance per loop thread, concurrent bursts) is part of this check; "
+                               "any data race in iv_inotify.c is a violation.")
+if "C18" in CLAIMED:
+    CLAIMED["C18"]["text"] += (" iv_fd_pump's buffers and pipe descriptors: C17's pump programs (incl. a failing splice probe) are run here and the resource-accounting part of "
+                               "C17's oracle is reported.")
+
 NOT_YET = "check not built yet in this round; planned per DESIGN.md §7 (Lean model + theorems + correspondence)"
 
 checks = []
